@@ -2738,10 +2738,13 @@ namespace bloch::compiler {
             return;
         }
 
+        // isAssignableType already lets statically unknown values through; comparing the bare
+        // primitive tags on top of it would accept every class reference and array (their tag is
+        // Unknown) for a primitive element, and anything at all for a class element.
         auto typesCompatible =
             isAssignableType(elemType, valType) ||
-            matchesPrimitive(elemType.value, valType.value) ||
-            (elemType.value == ValueType::Int && valType.value == ValueType::Bit);
+            (elemType.value == ValueType::Int && valType.className.empty() &&
+             valType.value == ValueType::Bit);
 
         if (!typesCompatible) {
             throw BlochError(ErrorCategory::Semantic, node.line, node.column,
